@@ -31,12 +31,24 @@ try:
 except Exception:
     out("END 0 -1 0 |\n")
     sys.exit(0)
+end = os.environ.get("PYW_END", "close")
+forked_parent = False
+if end == "fork":
+    # the writer was opened by this process; a forked worker records and closes it (one worker per channel is a usual layout
+    # of multi-channel recorders).  This process never touches the writer again and leaves without any clean-up
+    _pid = os.fork()
+    if _pid != 0:
+        _, _status = os.waitpid(_pid, 0)
+        os._exit(0 if _status == 0 else 4)
+    end = "close"
+    forked_child = True
+else:
+    forked_child = False
 for i, op in enumerate(ops):
     out("BEGIN %d %s\n" % (i + 1, op["op"]))
     r = rfharness.py_issue(w, cfg, op, op.get("cid", i))
     out("END %d %d %d |\n" % (i + 1, 0 if r[0] == "ok" else -1, r[1] if r[0] == "ok" else 0))
 out("BEGIN %d close\n" % (len(ops) + 1))
-end = os.environ.get("PYW_END", "close")
 
 
 class _AppError(Exception):
@@ -54,6 +66,11 @@ try:
                 raise _AppError("stop recording")
         except _AppError:
             pass  # only the application's exception came out: the writer reported nothing
+    elif end == "atexit":
+        # the recording script simply ends: the writer is a module-level object that is alive when the interpreter shuts
+        # down (no close(), no with block, no del)
+        out("END %d 0 0 |\n" % (len(ops) + 1))
+        sys.exit(0)
     else:
         w.close()
     out("END %d 0 0 |\n" % (len(ops) + 1))
@@ -64,3 +81,5 @@ try:
     open(os.path.join(chdir, ".verif-after-close"), "rb").close()
 except OSError:
     pass
+if forked_child:
+    os._exit(0)
